@@ -320,7 +320,11 @@ impl Check for C01 {
     }
     fn run_index(&self, seed: u64, index: u64, _tier: Tier, ctx: &mut WorkerCtx<Plan>, known: &KnownFindings) {
         let mut rng = Rng::new(mix(seed, "C01", index));
-        let plan = fault_free_plan(&mut rng, &Workload::full(), 6, false, 3);
+        let mut plan = fault_free_plan(&mut rng, &Workload::full(), 6, false, 3);
+        // the application may drop the event receiver at any time
+        if rng.chance(1, 8) {
+            plan.consumer = Consumer::DropAt(rng.below(gen::rough_span(&plan)));
+        }
         ctx.about_to_eval(&plan);
         let (ev, out) = eval_with(&plan, oracle::check_c01, nt_c01);
         bump_probes(ctx, &plan, &out);
@@ -658,6 +662,8 @@ pub fn sweep_bases() -> Vec<Plan> {
                     readpicture_error: None,
                     albumart_error: None,
                     later_error: None,
+                    chunk_caps: Vec::new(),
+                    header_before_error: false,
                 }];
                 bases.push(p);
             }
@@ -689,7 +695,11 @@ impl C08 {
         for n in 0..=dry.responses {
             faults.push(Fault { kind: FaultKind::CloseClean, trigger: Trigger::AfterResponse(n) });
         }
+        for n in 0..=dry.responses {
+            faults.push(Fault { kind: FaultKind::IdleDenied(4), trigger: Trigger::AfterResponse(n) });
+        }
         for t in dry.instants.iter().take(60) {
+            faults.push(Fault { kind: FaultKind::IdleDenied(4), trigger: Trigger::AtTime(*t) });
             faults.push(Fault { kind: FaultKind::CloseClean, trigger: Trigger::AtTime(*t) });
             faults.push(Fault { kind: FaultKind::Reset, trigger: Trigger::AtTime(*t) });
         }
@@ -804,7 +814,7 @@ impl Check for C08 {
         ]
     }
     fn fault_kinds(&self) -> Vec<&'static str> {
-        vec!["close_clean", "cut", "read_err", "write_err", "reset", "garbage"]
+        vec!["close_clean", "cut", "read_err", "write_err", "reset", "garbage", "idle_denied"]
     }
     session_check_common!();
 }
@@ -840,6 +850,15 @@ fn gen_c17(rng: &mut Rng) -> Plan {
             script.push(Op::Think { ms: rng.below(5) });
         }
         script.push(Op::AlbumArt { uri });
+        // sometimes a second picture is loaded afterwards by the same caller
+        if rng.chance(1, 3) {
+            let uri2 = format!("art/{}{}x.ogg", (b'a' + i as u8) as char, rng.below(100));
+            plan.pictures.push(gen::gen_picture(rng, uri2.clone(), limit));
+            if rng.chance(1, 2) {
+                script.push(Op::Think { ms: rng.below(120) });
+            }
+            script.push(Op::AlbumArt { uri: uri2 });
+        }
         plan.callers.push(script);
     }
     // ordinary callers and notifications alongside
